@@ -267,6 +267,10 @@ class GriffeLoader:
         seen = seen or set()
         seen.add(module.path)
         if module.exports is None:
+            # No exports to expand here, but submodules can still declare `__all__`.
+            for submodule in module.modules.values():
+                if not submodule.is_alias and submodule.path not in seen:
+                    self.expand_exports(submodule, seen)
             return
 
         expanded = []
